@@ -213,6 +213,31 @@ theorem likelihood_of_labelled_data [OfNat τ 0] [OfNat τ 1] [Sub τ] [Mul τ]
       · exact hrefl _
       · exact (List.pairwise_cons.mp hsorted).1 x hx'
 
+/-- the nondeterministic model is not vacuous: for a total transitive order on times every set of sources
+without covariances, with at least one epoch and the declared number of offsets has an accepted run -/
+theorem merge_accepts_some_permutation (htrans : ∀ a b c, le a b = true → le b c = true → le a c = true)
+    (htotal : ∀ a b, (le a b || le b a) = true)
+    (svs : List (κ × Survey τ ν)) (nOffsets : Nat)
+    (hcov : ∀ p ∈ svs, p.2.hasCov = false) (hn : (uniq (catIds svs)).length = nOffsets + 1)
+    (hne : catT svs ≠ []) :
+    ∃ perm m, merge le svs nOffsets perm = .ok m := by
+  obtain ⟨perm, hv⟩ := exists_validPerm le htrans htotal (catT svs)
+  refine ⟨perm, ?_⟩
+  have hv' := hv
+  simp only [validPerm, Bool.and_eq_true] at hv'
+  have hp := gather_perm perm _ (isPermOfRange_perm _ _ hv'.1)
+  have hany : svs.any (fun p => p.2.hasCov) = false := by
+    simp only [List.any_eq_false]
+    intro p hp'
+    simp [hcov p hp']
+  unfold merge
+  simp only [hany, Bool.false_eq_true, if_false, hn, ne_eq, not_true_eq_false, hv, Bool.not_true]
+  cases hg : gather perm (catT svs) with
+  | nil =>
+    rw [hg] at hp
+    exact absurd hp.symm.eq_nil hne
+  | cons m r => simp
+
 /-! ### non-vacuity -/
 section Examples
 
